@@ -33,6 +33,13 @@ func newGlueRun(r *Report, p *Prog, arch, name string, pre []pFact) *glueRun {
 	}
 	e, outs := protoRunFull(p, fn, false, asmContracts(arch), pre)
 	g := &glueRun{r: r, p: p, arch: arch, fn: fn, name: name, e: e, d: e.proto, outs: outs}
+	if glueFollowedFns[arch] == nil {
+		glueFollowedFns[arch] = map[string]bool{}
+	}
+	glueFollowedFns[arch][name] = true
+	for f := range e.followed {
+		glueFollowedFns[arch][p.FuncName(f)] = true
+	}
 	r.Count("glue_paths_"+arch, len(outs))
 	if len(e.errs) > 0 {
 		r.Viol("FOLLOWED", g.key(), p.Pos(fn.Pos()), "the function cannot be followed in the glue domain: "+strings.Join(e.errs, "; "))
@@ -40,6 +47,9 @@ func newGlueRun(r *Report, p *Prog, arch, name string, pre []pFact) *glueRun {
 	}
 	return g
 }
+
+// glueFollowedFns: per architecture, the functions interpreted by some glue run (entry points and followed callees)
+var glueFollowedFns = map[string]map[string]bool{}
 
 func (g *glueRun) key() string { return "[" + g.arch + "] " + g.name }
 
